@@ -375,7 +375,7 @@ if __name__ == "__main__":
     dev = os.environ.get("VERIF_DEV")
     tier = sys.argv[2] if len(sys.argv) > 2 else "quick"
     only = sys.argv[3:] or None
-    rs = run_units(sys.argv[1].split(","), "/repo", tier, "/var/tmp/vp-dev" if dev else f"/var/tmp/vp-manual-{os.getpid()}", only=only, keep=bool(dev))
+    rs = run_units(sys.argv[1].split(","), "/repo", tier, (dev if dev.startswith("/") else "/var/tmp/vp-dev") if dev else f"/var/tmp/vp-manual-{os.getpid()}", only=only, keep=bool(dev))
     for r in rs:
         for h in r["harnesses"]:
             print(f"{h['status']:10} {h['time_s']:7.1f}s {h['name']}  {h['reason'][:300]}")
